@@ -146,4 +146,71 @@ theorem fmtTime_mono_aux {Y M D h m s Y' M' D' h' m' s' : Nat}
   simp only [civilLt]
   omega
 
+
+/-! ### time.Parse accepts the stamp of every real civil time -/
+
+theorem foldl_decVal : ∀ (d : Bytes) (n : Nat),
+    d.foldl (fun n c => 10 * n + (c.toNat - 48)) n = n * 10 ^ d.length + decValue d
+  | [], n => by simp [decValue]
+  | c :: d, n => by
+    simp only [List.foldl_cons, foldl_decVal d, decValue, List.length_cons, Nat.pow_succ]
+    rw [Nat.add_mul, Nat.mul_comm 10 n, Nat.mul_assoc, Nat.mul_comm 10 (10 ^ d.length)]
+    omega
+
+theorem decVal_eq (d : Bytes) : decVal d = decValue d := by
+  unfold decVal; rw [foldl_decVal]; simp
+
+theorem fields_of_concat (A B C D E F : Bytes) (ha : A.length = 4) (hb : B.length = 2) (hc : C.length = 2)
+    (hd : D.length = 2) (he : E.length = 2) :
+    let ts := A ++ B ++ C ++ D ++ E ++ F
+    ts.take 4 = A ∧ (ts.drop 4).take 2 = B ∧ (ts.drop 6).take 2 = C ∧ (ts.drop 8).take 2 = D ∧
+      (ts.drop 10).take 2 = E ∧ ts.drop 12 = F := by
+  intro ts
+  have e : ts = A ++ (B ++ (C ++ (D ++ (E ++ F)))) := by simp [ts]
+  have d4 : ts.drop 4 = B ++ (C ++ (D ++ (E ++ F))) := by rw [e]; exact List.drop_left' ha
+  have d6 : ts.drop 6 = C ++ (D ++ (E ++ F)) := by
+    have : ts.drop 6 = (ts.drop 4).drop 2 := by simp
+    rw [this, d4]; exact List.drop_left' hb
+  have d8 : ts.drop 8 = D ++ (E ++ F) := by
+    have : ts.drop 8 = (ts.drop 6).drop 2 := by simp
+    rw [this, d6]; exact List.drop_left' hc
+  have d10 : ts.drop 10 = E ++ F := by
+    have : ts.drop 10 = (ts.drop 8).drop 2 := by simp
+    rw [this, d8]; exact List.drop_left' hd
+  have d12 : ts.drop 12 = F := by
+    have : ts.drop 12 = (ts.drop 10).drop 2 := by simp
+    rw [this, d10]; exact List.drop_left' he
+  refine ⟨by rw [e]; exact List.take_left' ha, by rw [d4]; exact List.take_left' hb,
+    by rw [d6]; exact List.take_left' hc, by rw [d8]; exact List.take_left' hd,
+    by rw [d10]; exact List.take_left' he, d12⟩
+
+/-- the stamp of a real date and time of day passes the range validation of time.Parse -/
+theorem timeValid_fmtTime_aux {Y M D h m s : Nat} (hY : Y < 10000) (hM : 1 ≤ M ∧ M ≤ 12)
+    (hD : 1 ≤ D ∧ D ≤ daysIn M Y) (hh : h < 24) (hm : m < 60) (hs : s < 60) :
+    timeValid (fmtTime Y M D h m s) = true := by
+  have hD31 : D ≤ 31 := by
+    have : daysIn M Y ≤ 31 := by unfold daysIn; split <;> (try split) <;> omega
+    omega
+  obtain ⟨a1, a2, _⟩ := padDec_spec 4 Y (by omega) (by omega) (by omega)
+  obtain ⟨b1, b2, _⟩ := padDec_spec 2 M (by omega) (by omega) (by omega)
+  obtain ⟨c1, c2, _⟩ := padDec_spec 2 D (by omega) (by omega) (by omega)
+  obtain ⟨d1, d2, _⟩ := padDec_spec 2 h (by omega) (by omega) (by omega)
+  obtain ⟨e1, e2, _⟩ := padDec_spec 2 m (by omega) (by omega) (by omega)
+  obtain ⟨f1, f2, _⟩ := padDec_spec 2 s (by omega) (by omega) (by omega)
+  obtain ⟨t1, _⟩ := fmtTime_spec (Y := Y) (M := M) (D := D) (h := h) (m := m) (s := s)
+    ⟨hY, by omega, by omega, by omega, by omega, by omega⟩
+  obtain ⟨g1, g2, g3, g4, g5, g6⟩ := fields_of_concat _ _ _ _ _ (padDec 2 s) a1 b1 c1 d1 e1
+  have g6' : (List.drop 12 (fmtTime Y M D h m s)).take 2 = padDec 2 s := by
+    unfold fmtTime; rw [g6]; exact List.take_of_length_le (by omega)
+  have hall : (fmtTime Y M D h m s).all Pseudo.isDigit = true := by
+    rw [List.all_eq_true]; exact t1.2
+  unfold timeValid
+  simp only [hall, t1.1]
+  unfold fmtTime
+  simp only [g1, g2, g3, g4, g5]
+  have g6'' := g6'
+  unfold fmtTime at g6''
+  simp only [g6'', decVal_eq, a2, b2, c2, d2, e2, f2]
+  simp [hM.1, hM.2, hD.1, hD.2, hh, hm, hs]
+
 end ModVerif.Proofs.Pseudo
